@@ -5,6 +5,7 @@ import Driver.L3
 import Driver.L4
 import Driver.L5
 import Driver.L6
+import Driver.L7
 open Clap.Driver
 
 def dispatch (line : String) : String :=
@@ -30,6 +31,9 @@ def dispatch (line : String) : String :=
     | some r => r
     | none =>
     match handleL6 cmd args with
+    | some r => r
+    | none =>
+    match handleL7 cmd args with
     | some r => r
     | none => "bad-op"
 
